@@ -127,6 +127,12 @@ def put (H : Hash) (crc : Bool) (L : Nat) (s : Store) (writes : List Bytes) : St
   let w := writes.foldl (W.write L) W.init
   putCore H crc L s (w.keys H L) w.leaves (writes.map List.length).sum
 
+/-- `Fs.Delete` (store part): the given keys in order; the first key the store does not hold ends
+    it with an error, leaving what was deleted so far deleted -/
+def deleteKeys : Store → List Bytes → Store × Bool
+  | s, [] => (s, true)
+  | s, k :: r => if (s.get k).isSome then deleteKeys (s.filter (·.1 != k)) r else (s, false)
+
 /-! ### readers -/
 
 inductive RErr where
@@ -219,5 +225,12 @@ def writeToAt (H : Hash) (verify : Bool) (L : Nat) (s : Store) (keys : List Byte
       match writeToAt H verify L s keys fuel (i + 1) with
       | .error e => .error e
       | .ok rest => .ok ((i * L, leaf) :: rest)
+
+/-- `defaultFs.Delete`: the leaf blobs of the object (read from its root blob) in key order, then
+    the root blob -/
+def delete (H : Hash) (L : Nat) (s : Store) (root : Bytes) : Store × Bool :=
+  match objectKeys H L s root with
+  | .error _ => (s, false)
+  | .ok keys => deleteKeys s (keys ++ [root])
 
 end Cafs
